@@ -40,7 +40,9 @@ LEVEL_TEXT = (
     "requesters. Request loop: attempts_bound, gap_ge_backoff (hypothesis: enforce_retry_after off, the documented "
     "override), gap_ge_retry_after (HTTP 429, header or details.retryAfterSeconds, any enforce flag), "
     "fatal_4xx_immediate, transient_retried_then_escalates, success_stops, transient_http_iff; "
-    "retry_after_http_date_witness proves the NEGATION of '429 is retried' for an HTTP-date Retry-After (finding F1, "
+    "retry_after_http_date (F1 repaired: retried, gap >= max(0, whole seconds to the date) > delta - 1 s; "
+    "http_date_truncation_witness shows the sub-second shortfall), retry_after_garbage_falls_back; "
+    "retry_after_overflow_witness proves the NEGATION of '429 is retried' for Retry-After: inf/1e999 (finding F2, "
     "replayed on the real code every run). Throttler: delays_follow_config (k-th consecutive error -> delays[min(k,last)]), "
     "empty_config_never_throttles, success_resets, swallowed, other_objects_unaffected, recovers_after_errors_stop. "
     "Vault LTS invariants over every label list: single_reauth, stale_invalidation_is_noop, all_proceed_fresh, "
@@ -55,7 +57,7 @@ TIE = ("T (check_response chain + retry tuple: AST → Lean, proved equal) + D (
        "accepted by the Lean LTS with equal vault state after every label)")
 THEOREMS = [("Kopf.Props.C12", "Kopf.C12." + n) for n in [
     "attempts_bound", "gap_ge_backoff", "gap_ge_retry_after", "fatal_4xx_immediate",
-    "transient_retried_then_escalates", "success_stops", "transient_http_iff", "retry_after_http_date_witness",
+    "transient_retried_then_escalates", "success_stops", "transient_http_iff", "retry_after_http_date", "http_date_truncation_witness", "retry_after_garbage_falls_back", "retry_after_overflow_witness",
     "delays_follow_config", "empty_config_never_throttles", "success_resets", "swallowed",
     "other_objects_unaffected", "recovers_after_errors_stop",
     "single_reauth", "stale_invalidation_is_noop", "all_proceed_fresh", "invalid_not_reused",
@@ -88,7 +90,7 @@ TRUSTED = [
 ]
 ASSUMPTIONS = [
     "Retry-After is honoured for HTTP 429 only (as documented in docs/configuration.rst); a Retry-After on 5xx is ignored by the code and not judged",
-    "Retry-After values are numeric seconds (RFC delay-seconds); the HTTP-date form is finding F1 (ValueError escapes api.request, no retry): modelled (Resp.hdrBad), witnessed (retry_after_http_date_witness), replayed from corpus/C12/F1.json on every run",
+    "Retry-After forms: delay-seconds (truncated to whole seconds), HTTP-date (F1, fixed in dee5a41: max(0, int(when - now)); the oracle judges it at the date's one-second resolution: the next attempt must come less than 1 s before the date — the code truncates, see http_date_truncation_witness), garbage (ignored), float overflow 'inf'/'1e999' (finding F2: OverflowError escapes, modelled as Hdr.overflow, witnessed, replayed from corpus/C12/F2.json)",
     "settings.queueing.error_delays is an Iterable as annotated; a scalar makes iter() raise TypeError out of throttled (modelled, not judged)",
     "credentials have no expiration; every populate brings newly constructed info objects (equal values allowed)",
     "the invalid-credential history is per vault key and holds 3 items (the bound is in the theorem)",
@@ -393,7 +395,14 @@ class ScriptSession:
             self.facts.append(["exc", isinstance(e, aiohttp.ClientConnectionError), isinstance(e, asyncio.TimeoutError),
                                isinstance(e, RuntimeError), MARKER in str(e), self.closed])
             raise e
-        self.facts.append(None)
+        from harness.sim import simloop
+        now = tk(simloop.WALL.now_s())
+        if a.get("hdr_date") is not None:      # an HTTP-date `hdr_date` whole seconds after the current wall second
+            import datetime as _dt
+            import email.utils
+            when = (now // 1024 + a["hdr_date"]) * 1024
+            a = dict(a, hdr=email.utils.format_datetime(simloop.EPOCH + _dt.timedelta(seconds=when // 1024), usegmt=True))
+        self.facts.append(["http", now, a.get("hdr")])
         return make_resp(a)
 
     async def close(self) -> None:
@@ -448,9 +457,25 @@ def gen_attempt(rng: random.Random, backoff_hint: int | None) -> dict:
         base = (backoff_hint or 0) // 1024
         val = rng.choice(RA_POOL + [max(0, base - 1), base, base + 1, base + 1])
         how = rng.choice(["hdr", "hdr", "det", "both", "none", "hdr-empty", "hdr-frac"])
-        if rng.random() < 0.02:
+        r2 = rng.random()
+        if r2 < 0.10:        # an HTTP-date placed around the backoff, in the past, or right now
             how = "hdr-date"
-            a["hdr"] = HTTP_DATE
+            a["hdr_date"] = rng.choice([-3, 0, 1, 2, 3, 5, max(0, base - 1), base, base + 1, base + 1])
+            if rng.random() < 0.3:
+                a["det"] = rng.choice(RA_POOL)
+                a["payload"] = "status"
+        elif r2 < 0.16:      # garbage: ignored, and the details are not consulted either
+            how = "hdr-garbage"
+            a["hdr"] = rng.choice(["soon", "abc", "nan", "0x10", "Wed, 99 Foo 2026", "-", "1 2"])
+            if rng.random() < 0.5:
+                a["det"] = rng.choice(RA_POOL)
+                a["payload"] = "status"
+        elif r2 < 0.17:      # float overflow: finding F2
+            how = "hdr-overflow"
+            a["hdr"] = rng.choice(["inf", "1e999", "-inf"])
+        elif r2 < 0.19:
+            how = "hdr-negative"
+            a["hdr"] = rng.choice(["-1", "-5"])
         if how in ("hdr", "both"):
             a["hdr"] = str(val)
         if how == "hdr-empty":
@@ -517,15 +542,39 @@ async def _one_request(env: dict, case: dict) -> dict:
             "status": getattr(exc, "status", None), "facts": sess.facts}
 
 
-def hdr_numeric(hdr: Any) -> bool:
+def classify_hdr(hdr: Any, now: int) -> list | None:
+    """What kind of Retry-After value this is (an input description, not the code's parser):
+    None (absent/empty) | ["secs", ticks] | ["date", when - now in ticks] | ["garbage"] | ["overflow"]."""
+    import datetime as _dt
+    import email.utils
+    import math
+    from harness.sim import simloop
+    if hdr in (None, ""):
+        return None
     try:
-        float(hdr)
-        return True
-    except (TypeError, ValueError):
-        return False
+        f = float(hdr)
+    except ValueError:
+        try:
+            when = email.utils.parsedate_to_datetime(hdr)
+        except (TypeError, ValueError):
+            return ["garbage"]
+        if when.tzinfo is None:
+            when = when.replace(tzinfo=_dt.timezone.utc)
+        return ["date", round((when - simloop.EPOCH).total_seconds() * 1024) - now]
+    if math.isinf(f):
+        return ["overflow"]
+    if math.isnan(f):
+        return ["garbage"]
+    return ["secs", tk(f)]
 
 
-HTTP_DATE = "Wed, 21 Oct 2026 07:28:00 GMT"
+def attempt_hdr(a: dict, fact: Any) -> list | None:
+    """the classified header of an attempt: from what the fake session really sent, if it got that far"""
+    if isinstance(fact, list) and fact and fact[0] == "http":
+        return classify_hdr(fact[2], fact[1])
+    if a.get("hdr_date") is not None:
+        return ["date", a["hdr_date"] * 1024]      # never reached: the value is irrelevant
+    return classify_hdr(a.get("hdr"), 0)
 
 
 def request_to_lean(case: dict, obs: dict) -> list:
@@ -534,11 +583,8 @@ def request_to_lean(case: dict, obs: dict) -> list:
         if a["kind"] == "exc":
             f = fact if fact is not None else _exc_facts(a["exc"])
         else:
-            hdr = a.get("hdr")
-            bad = hdr not in (None, "") and not hdr_numeric(hdr)
-            h = None if hdr in (None, "") or bad else tk(float(hdr))
             d = None if a.get("det") is None else a["det"] * 1024
-            f = ["http", a["status"], h, a.get("payload", "empty"), d, bad]
+            f = ["http", a["status"], attempt_hdr(a, fact), a.get("payload", "empty"), d]
         script.append({"lat": a["lat"], "f": f})
     return ["C12.request", {"backoffs": seq_to_lean(case["backoffs"]), "enforce": case["enforce"]}, script, obs["t0"]]
 
@@ -596,10 +642,14 @@ def oracle_request(case: dict, obs: dict) -> list[tuple[str, dict]]:
             break
     if expected_attempts is not None:
         last = script[n - 1] if 0 < n <= len(script) else None
-        if n <= expected_attempts and last is not None and last["kind"] == "http" and last["status"] == 429 \
-                and last.get("hdr") not in (None, "") and not hdr_numeric(last.get("hdr")) and obs["exc"] == "ValueError":
+        last_hdr = attempt_hdr(last, obs["facts"][n - 1] if n - 1 < len(obs["facts"]) else None) \
+            if last is not None and last["kind"] == "http" and last["status"] == 429 else None
+        if n <= expected_attempts and last_hdr is not None and last_hdr[0] == "date" and obs["exc"] == "ValueError":
             out.append(("a 429 whose Retry-After is an HTTP-date was not retried: ValueError escaped api.request",
                         {"site": "api.request", "shape": "429 with non-numeric Retry-After -> ValueError, no retry"}))
+        elif n <= expected_attempts and last_hdr is not None and last_hdr[0] == "overflow" and obs["exc"] == "OverflowError":
+            out.append(("a 429 whose Retry-After overflows float() was not retried: OverflowError escaped api.request",
+                        {"site": "api._parse_retry_after", "shape": "429 with Retry-After inf/1e999 -> OverflowError, no retry"}))
         elif n != expected_attempts:
             kind = "fatal-4xx-retried" if isinstance(expected_final, tuple) and expected_final[0] == "status" and \
                 400 <= expected_final[1] < 500 and expected_final[1] not in (403, 429) and n > expected_attempts \
@@ -624,10 +674,14 @@ def oracle_request(case: dict, obs: dict) -> list[tuple[str, dict]]:
         b = budget[i] if i < len(budget) else None
         ra = None
         if a["kind"] == "http" and a["status"] == 429:
-            hdr = a.get("hdr")
-            if hdr not in (None, "") and hdr_numeric(hdr):
-                ra = int(float(hdr)) * 1024          # delay-seconds are integral (RFC 7231 §7.1.3)
-            elif a.get("det") and a.get("payload") == "status":
+            h = attempt_hdr(a, obs["facts"][i] if i < len(obs["facts"]) else None)
+            if h is not None and h[0] == "secs":
+                ra = int(h[1] / 1024) * 1024         # delay-seconds are integral (RFC 7231 §7.1.3)
+            elif h is not None and h[0] == "date":
+                # an HTTP-date has a resolution of one second: the next attempt may not come a whole
+                # second or more before it (the code truncates `when - now` to whole seconds)
+                ra = max(0, h[1] - 1023)
+            elif h is None and a.get("det") and a.get("payload") == "status":
                 ra = a["det"] * 1024
         if b is None:
             out.append(("a retry happened beyond the configured backoffs", {"site": "api.request", "shape": "retry-without-backoff"}))
@@ -645,7 +699,8 @@ def key_request(case: dict, obs: dict) -> tuple[str, bool]:
         if a["kind"] == "http":
             t = str(a["status"])
             if a["status"] == 429:
-                t += ":" + ("h" if a.get("hdr") else "") + ("D" if a.get("hdr") == HTTP_DATE else "") + ("d" if a.get("det") else "") + a.get("payload", "")[:1]
+                t += ":" + ("h" if a.get("hdr") else "") + (f"D{a['hdr_date']}" if a.get("hdr_date") is not None else "") + \
+                    ((classify_hdr(a.get("hdr"), 0) or ["-"])[0][:1] if a.get("hdr") else "") + ("d" if a.get("det") else "") + a.get("payload", "")[:1]
         else:
             t = a["exc"]
         tags.append(t)
@@ -1386,6 +1441,9 @@ def _env() -> dict:
     lg.propagate = False
     logging.getLogger("kopf").setLevel(logging.CRITICAL + 1)
     env["logger"] = lg
+    # api.py reads the wall clock for HTTP-date Retry-After values: same shim as install_wall_clock()
+    if hasattr(env["api"], "datetime"):
+        env["api"].datetime = env["simloop"]._SHIM
     return env
 
 
@@ -1476,7 +1534,8 @@ def histogram(case: dict, obs: dict, hist: dict) -> None:
         for a in case["script"][:len(obs["times"])]:
             c("request.fault", a["status"] if a["kind"] == "http" else a["exc"])
             if a["kind"] == "http" and a["status"] == 429:
-                c("request.retry_after", ("header" if a.get("hdr") else "") + ("+details" if a.get("det") else "") or "none")
+                kind = "http-date" if a.get("hdr_date") is not None else (classify_hdr(a.get("hdr"), 0) or ["none"])[0]
+                c("request.retry_after", kind + ("+details" if a.get("det") else ""))
     elif case["part"] == "throttle":
         c("throttle.delays", case["delays"]["kind"])
         c("throttle.objects", len(case["objects"]))
